@@ -209,3 +209,11 @@ Qed.
 (* a line that was read back and is written again (a second checkpoint behind the first) is the same line *)
 Theorem sorted_text_idem j : jnodup j -> sorted_text (jsort j) = sorted_text j.
 Proof. intros Hj. unfold sorted_text. rewrite (jsort_idem j Hj). reflexivity. Qed.
+
+(* ---------- the JSON file format (format_json.py writes every row with sort_keys=True) ---------- *)
+Theorem json_file_rows_jperm rows rows' :
+  Forall2 jperm rows rows' -> json_file (map jsort rows) = json_file (map jsort rows').
+Proof.
+  intros H. f_equal. induction H as [|a b l l' Hab _ IH]; [reflexivity|].
+  cbn [map]. rewrite (jsort_jperm a b Hab), IH. reflexivity.
+Qed.
